@@ -444,7 +444,7 @@ def q_term(run):
     return "{| " + "; ".join("%s := %s" % (k, cbool(k in on)) for k in QUIRK_OF_SIG.values()) + " |}"
 
 
-def run_cases(run, vh, cases, shard=60):
+def run_cases(run, vh, cases, shard=120):
     t0 = time.time()
     outs, rc, err = run_harness(vh, "c15", [{"id": c["id"], "files": render(c["L"]), "main": "/" + "/".join(c["main"])} for c in cases])
     log("c15: harness %.1fs for %d cases" % (time.time() - t0, len(cases)))
@@ -453,7 +453,7 @@ def run_cases(run, vh, cases, shard=60):
 
     def do(idx_chunk):
         idx, chunk = idx_chunk
-        body = ["From Coq Require Import String.", "From Arrai Require Import Sys.BPath Sys.Bundle Check.C15Check.", "Open Scope list_scope. Open Scope Z_scope.", "Definition cases : list case15 := ["]
+        body = ["From Coq Require Import String.", "From Arrai Require Import Sys.BPath Sys.Bundle Check.C15Check.", "Open Scope list_scope. Open Scope Z_scope.", "Time Definition cases : list case15 := ["]
         items = []
         for c in chunk:
             o = outs.get(c["id"]) or {}
@@ -463,11 +463,11 @@ def run_cases(run, vh, cases, shard=60):
             items.append("  {| c_id := %d; c_layout := %s;\n     c_main := %s; c_src := %s; c_bst := %d; c_listing := %s; c_run := %s |}" % (
                 c["id"], layout_term(c["L"]), path_term(c["main"]), ores_term(o.get("src")), bst, listing, ores_term(runs[0])))
         body.append(";\n".join(items))
-        body.append("].\nDefinition R := Eval vm_compute in report %s cases.\nPrint R." % q)
+        body.append("].\nTime Definition R := Eval vm_compute in report %s cases.\nPrint R." % q)
         t1 = time.time()
         rc2, so, se = coq_eval("c15_cases_%d" % idx, "\n".join(body))
         if idx == 0:
-            log("c15: first shard coqc %.1fs (%d bytes)" % (time.time() - t1, sum(len(b) for b in body)))
+            log("c15: first shard coqc %.1fs (%d bytes) %s" % (time.time() - t1, sum(len(b) for b in body), re.findall(r"Finished[^\n]*", so)))
         return coq_report(so, "R"), se
 
     results = {}
